@@ -38,3 +38,5 @@ func Yield()                      {}
 func ClockAdvance(d time.Duration) {}
 func NumGoroutines() int          { return 0 }
 func Note(s string)               {}
+func Flatten(v any) []uint64     { return nil }
+func FillSymbolic(ptr any)       {}
